@@ -158,6 +158,26 @@ func cacheGenPool(r *common.Rand, n int, mode string) (map[string]common.JEvent,
 			continue
 		}
 		nrefs := 1 + r.Intn(3)
+		if r.Chance(20) {
+			// a request that names another request of the pool first (mostly one of its own author) and
+			// then further targets: removing the named request happens in the middle of this one's work
+			var k5 []int
+			for j := range evs {
+				if j != i && evs[j].Kind == 5 {
+					k5 = append(k5, j)
+				}
+			}
+			if len(k5) > 0 {
+				j := k5[r.Intn(len(k5))]
+				if r.Chance(70) {
+					evs[i].PK = evs[j].PK
+				}
+				evs[i].Tags = append(evs[i].Tags, []string{"e", ids[j]})
+				if nrefs < 2 {
+					nrefs = 2
+				}
+			}
+		}
 		for k := 0; k < nrefs; k++ {
 			switch r.Intn(10) {
 			case 0, 1, 2, 3: // e reference to some non-ephemeral pool event
@@ -190,6 +210,22 @@ func cacheGenPool(r *common.Rand, n int, mode string) (map[string]common.JEvent,
 				evs[i].Tags = append(evs[i].Tags, []string{"e"})
 			case 9:
 				evs[i].Tags = append(evs[i].Tags, []string{"e", "nosuchid"})
+			}
+		}
+	}
+	// a request that names one of its targets twice (the same id with and without a relay hint, the same
+	// address twice): its registry entries are met twice when it leaves
+	for i := range evs {
+		if evs[i].Kind == 5 && r.Chance(15) {
+			var refs [][]string
+			for _, t := range evs[i].Tags {
+				if len(t) >= 2 && (t[0] == "e" || t[0] == "a") {
+					refs = append(refs, t)
+				}
+			}
+			if len(refs) > 0 {
+				t := refs[r.Intn(len(refs))]
+				evs[i].Tags = append(evs[i].Tags, []string{t[0], t[1], "wss://other"})
 			}
 		}
 	}
@@ -279,13 +315,14 @@ func cacheGen(r *common.Rand, mode string) cacheCase {
 		nsteps = 24
 	}
 	nq := map[string]int{"c03": 3, "c04": 0, "c05": 0}[mode]
+	var asked [][]common.JFilter
 	for i := 0; i < nsteps; i++ {
 		st := cacheStep{E: common.Pick(r, ids)}
 		if r.Chance(12) && i > 0 { // re-offer an earlier event
 			st.E = c.Steps[r.Intn(i)].E
 		}
 		nqs := nq
-		if nq == 0 && r.Chance(20) {
+		if nq == 0 && r.Chance(30) {
 			// the insertion histories of C04/C05 are interleaved with a few queries: reading must not
 			// change what the following insertions and deletion requests find
 			nqs = 1
@@ -297,6 +334,33 @@ func cacheGen(r *common.Rand, mode string) cacheCase {
 			for k := 0; k < nf; k++ {
 				fs = append(fs, cacheGenFilter(r, ids, sel))
 			}
+			if r.Chance(30) && i > 0 {
+				// one filter with a single id, author or kind and a second condition: the candidates of the
+				// first condition are cut down by the second
+				var f common.JFilter
+				ev := c.Pool[c.Steps[r.Intn(i)].E]
+				switch r.Intn(3) {
+				case 0:
+					f.IDs = common.Ptr([]string{ev.ID})
+				case 1:
+					f.Authors = common.Ptr([]string{ev.PK})
+				default:
+					f.Kinds = common.Ptr([]int64{ev.Kind})
+				}
+				switch r.Intn(3) {
+				case 0:
+					f.Kinds = common.Ptr([]int64{common.Pick(r, []int64{0, 1, 5, 30000})})
+				case 1:
+					f.Authors = common.Ptr([]string{common.Pick(r, cacheAuthors)})
+				default:
+					f.Tags = common.Ptr([]common.JTagCond{{Name: "t", Vals: []string{common.Pick(r, []string{"x", "y"})}}})
+				}
+				fs = []common.JFilter{f}
+			} else if len(asked) > 0 && r.Chance(25) {
+				// an earlier query again, with one condition fewer per filter
+				fs = common.Relax(r, asked[r.Intn(len(asked))])
+			}
+			asked = append(asked, fs)
 			st.Qs = append(st.Qs, cacheQuery{Fs: fs})
 		}
 		if st.Qs == nil {
